@@ -13,6 +13,8 @@ import (
 
 	"github.com/bufbuild/protocompile"
 	"github.com/bufbuild/protocompile/experimental/verifharness/vhlib"
+	"github.com/bufbuild/protocompile/internal"
+	"github.com/bufbuild/protocompile/internal/editions"
 	"github.com/bufbuild/protocompile/linker"
 	"github.com/bufbuild/protocompile/parser"
 	"github.com/bufbuild/protocompile/protoutil"
@@ -294,6 +296,129 @@ func redecode(b []byte, types *protoregistry.Types) (*descriptorpb.FileDescripto
 	return out, err
 }
 
+// ---------------------------------------------------------------- diagnostics
+
+// diag collects the warnings (and, when collectErrors is set, the errors) of one compilation, classified.
+type diag struct {
+	collectErrors bool
+	warnings      map[string]int64 // class -> count
+	warnByFile    map[string]int64 // "class|file" -> count
+	errors        []string
+	errByFile     map[string]int64
+}
+
+func newDiag(collectErrors bool) *diag {
+	return &diag{collectErrors: collectErrors, warnings: map[string]int64{}, warnByFile: map[string]int64{}, errByFile: map[string]int64{}}
+}
+
+func classify(msg string) string {
+	switch {
+	case strings.Contains(msg, "no syntax specified"):
+		return "no-syntax"
+	case strings.Contains(msg, "not used"):
+		return "unused-import"
+	case strings.Contains(msg, "JSON name"):
+		return "json-field"
+	case strings.Contains(msg, "camel-case name"):
+		return "json-enum"
+	case strings.Contains(msg, "is deprecated as of edition"):
+		return "deprecated-feature"
+	}
+	return "other"
+}
+
+func (d *diag) reporter() reporter.Reporter {
+	return reporter.NewReporter(
+		func(err reporter.ErrorWithPos) error {
+			if !d.collectErrors {
+				return err
+			}
+			cl := classify(err.Unwrap().Error())
+			d.errors = append(d.errors, errStr(err))
+			d.errByFile[cl+"|"+err.GetPosition().Filename]++
+			return nil
+		},
+		func(err reporter.ErrorWithPos) {
+			cl := classify(err.Unwrap().Error())
+			d.warnings[cl]++
+			d.warnByFile[cl+"|"+err.GetPosition().Filename]++
+		})
+}
+
+func (d *diag) put(v map[string]any) {
+	w := map[string]any{}
+	for k, n := range d.warnings {
+		w[k] = n
+	}
+	v["warnings"] = w
+	if len(d.errors) > 0 {
+		es := []any{}
+		for i, e := range d.errors {
+			if i < 5 {
+				es = append(es, e)
+			}
+		}
+		v["errors"] = es
+		v["err"] = d.errors[0] // the first reported error rather than the summary error of a collecting reporter
+	}
+}
+
+// ---------------------------------------------------------------- JSON-name validation facts (Model/JsonNames.v)
+
+// jsonDump reports, per message of a file compiled from source: whether the message is JSON compliant
+// (features.json_format resolves to ALLOW), and per field its name, internal.JSONName of the name, the json_name
+// of the compiled proto and whether the source has an explicit json_name option.
+func jsonDump(f linker.File, text string) []any {
+	// the compiler drops the AST after linking; the source is parsed again to read the explicit json_name options
+	a, err := parser.Parse(f.Path(), strings.NewReader(text), reporter.NewHandler(nil))
+	if err != nil {
+		return nil
+	}
+	res, err := parser.ResultFromAST(a, true, reporter.NewHandler(nil))
+	if err != nil {
+		return nil
+	}
+	jf := editions.FeatureSetDescriptor.Fields().ByName("json_format")
+	var out []any
+	var doMsg func(md protoreflect.MessageDescriptor, mp, parsed *descriptorpb.DescriptorProto)
+	doMsg = func(md protoreflect.MessageDescriptor, mp, parsed *descriptorpb.DescriptorProto) {
+		if len(parsed.GetField()) != len(mp.GetField()) || len(parsed.GetNestedType()) != len(mp.GetNestedType()) {
+			return
+		}
+		compliant := false
+		if v, err := protoutil.ResolveFeature(md, jf); err == nil {
+			compliant = descriptorpb.FeatureSet_JsonFormat(v.Enum()) == descriptorpb.FeatureSet_ALLOW
+		}
+		fields := []any{}
+		for i, fd := range mp.GetField() {
+			explicit := false
+			if opts := res.FieldNode(parsed.GetField()[i]).GetOptions(); opts != nil {
+				for _, o := range opts.Options {
+					if len(o.Name.Parts) == 1 && !o.Name.Parts[0].IsExtension() && string(o.Name.Parts[0].Name.AsIdentifier()) == "json_name" {
+						explicit = true
+					}
+				}
+			}
+			fields = append(fields, []any{fd.GetName(), internal.JSONName(fd.GetName()), fd.GetJsonName(), explicit})
+		}
+		if len(fields) > 1 {
+			out = append(out, map[string]any{"msg": string(md.FullName()), "compliant": compliant, "fields": fields})
+		}
+		for i, n := range mp.GetNestedType() {
+			doMsg(md.Messages().Get(i), n, parsed.GetNestedType()[i])
+		}
+	}
+	fdp := protoutil.ProtoFromFileDescriptor(f)
+	pfd := res.FileDescriptorProto()
+	if len(pfd.GetMessageType()) != len(fdp.GetMessageType()) {
+		return nil
+	}
+	for i, m := range fdp.GetMessageType() {
+		doMsg(f.Messages().Get(i), m, pfd.GetMessageType()[i])
+	}
+	return out
+}
+
 // in:  files {name: text}, order [names], mode, mode2 (mode of the second compilation; default = mode), corr bool
 // out: {err} | {files: [...], object: {...}, bytes: {...}, desc: {...}, corr: [...]}
 func relinkCase(in map[string]any) map[string]any {
@@ -310,7 +435,8 @@ func relinkCase(in map[string]any) map[string]any {
 		mode2 = protocompile.SourceInfoMode(vhlib.Num(in, "mode2"))
 	}
 	srcRes := protocompile.WithStandardImports(&protocompile.SourceResolver{Accessor: protocompile.SourceAccessorFromMap(files)})
-	comp := protocompile.Compiler{Resolver: srcRes, SourceInfoMode: mode}
+	d1 := newDiag(false)
+	comp := protocompile.Compiler{Resolver: srcRes, SourceInfoMode: mode, Reporter: d1.reporter()}
 	first, err := comp.Compile(context.Background(), order...)
 	if err != nil {
 		return map[string]any{"err": errStr(err)}
@@ -327,6 +453,7 @@ func relinkCase(in map[string]any) map[string]any {
 	}
 	sort.Strings(names)
 	out := map[string]any{"files": names}
+	d1.put(out)
 	nrefs := int64(0)
 	for _, f := range first {
 		nrefs += int64(len(refsOf(orig[f.Path()])))
@@ -350,7 +477,8 @@ func relinkCase(in map[string]any) map[string]any {
 			}
 			return protocompile.SearchResult{}, protoregistry.NotFound
 		})
-		c2 := protocompile.Compiler{Resolver: res, SourceInfoMode: mode2}
+		d2 := newDiag(true)
+		c2 := protocompile.Compiler{Resolver: res, SourceInfoMode: mode2, Reporter: d2.reporter()}
 		second, err := c2.Compile(context.Background(), order...)
 		v := map[string]any{}
 		if err != nil {
@@ -366,6 +494,26 @@ func relinkCase(in map[string]any) map[string]any {
 				}
 			}
 			v["diff"] = diff
+		}
+		d2.put(v)
+		if vhlib.Bool(in, "jcorr") {
+			// JSON-name validation: what the source compilation and the re-link reported per file
+			var dumps []any
+			for _, f := range first {
+				text, ok := files[f.Path()]
+				if !ok {
+					continue
+				}
+				ms := jsonDump(f, text)
+				if len(ms) == 0 {
+					continue
+				}
+				dumps = append(dumps, map[string]any{"name": f.Path(), "msgs": ms,
+					"src_warn": d1.warnByFile["json-field|"+f.Path()],
+					"rl_warn":  d2.warnByFile["json-field|"+f.Path()],
+					"rl_err":   d2.errByFile["json-field|"+f.Path()]})
+			}
+			out["jcorr"] = dumps
 		}
 		// the supplied objects must still be what they were
 		mutated := []any{}
@@ -394,7 +542,8 @@ func relinkCase(in map[string]any) map[string]any {
 			}
 			return protocompile.SearchResult{}, protoregistry.NotFound
 		})
-		c2 := protocompile.Compiler{Resolver: res, SourceInfoMode: mode2}
+		d2 := newDiag(true)
+		c2 := protocompile.Compiler{Resolver: res, SourceInfoMode: mode2, Reporter: d2.reporter()}
 		second, err := c2.Compile(context.Background(), order...)
 		v := map[string]any{}
 		if err != nil {
@@ -422,6 +571,7 @@ func relinkCase(in map[string]any) map[string]any {
 			v["diff"] = diff
 			v["bytewise_equal"] = bytewise
 		}
+		d2.put(v)
 		out["bytes"] = v
 	}
 
@@ -437,7 +587,8 @@ func relinkCase(in map[string]any) map[string]any {
 			}
 			return protocompile.SearchResult{}, protoregistry.NotFound
 		})
-		c2 := protocompile.Compiler{Resolver: res, SourceInfoMode: mode2}
+		d2 := newDiag(true)
+		c2 := protocompile.Compiler{Resolver: res, SourceInfoMode: mode2, Reporter: d2.reporter()}
 		second, err := c2.Compile(context.Background(), order...)
 		v := map[string]any{}
 		if err != nil {
@@ -453,7 +604,76 @@ func relinkCase(in map[string]any) map[string]any {
 			}
 			v["diff"] = diff
 		}
+		d2.put(v)
 		out["desc"] = v
+	}
+
+	// ---- variant 4: mixed input forms: the files named in "asproto" as output protos (serialised and decoded
+	//      copies), every other file from its source
+	if ap, ok := in["asproto"]; ok {
+		want := map[string]bool{}
+		if l, ok := ap.([]any); ok {
+			for _, x := range l {
+				if sname, ok := x.(string); ok {
+					want[sname] = true
+				}
+			}
+		}
+		decoded := map[string]*descriptorpb.FileDescriptorProto{}
+		for n, b := range origBytes {
+			if !want[n] {
+				continue
+			}
+			fd := &descriptorpb.FileDescriptorProto{}
+			if err := proto.Unmarshal(b, fd); err != nil {
+				return map[string]any{"err": "cannot decode own output: " + err.Error()}
+			}
+			decoded[n] = fd
+		}
+		res := protocompile.CompositeResolver{protocompile.ResolverFunc(func(p string) (protocompile.SearchResult, error) {
+			if fd, ok := decoded[p]; ok {
+				return protocompile.SearchResult{Proto: fd}, nil
+			}
+			return protocompile.SearchResult{}, protoregistry.NotFound
+		}), srcRes}
+		d2 := newDiag(true)
+		c2 := protocompile.Compiler{Resolver: res, SourceInfoMode: mode2, Reporter: d2.reporter()}
+		second, err := c2.Compile(context.Background(), order...)
+		v := map[string]any{}
+		if err != nil {
+			v["err"] = errStr(err)
+		} else {
+			types := typesOf(every)
+			diff := []any{}
+			for _, f := range allFiles(second) {
+				if orig[f.Path()] == nil {
+					diff = append(diff, map[string]any{"file": f.Path(), "first": "", "second": "file absent from the first compilation"})
+					continue
+				}
+				// source info is compared when both compilations use the same mode
+				stripSI := func(p *descriptorpb.FileDescriptorProto) *descriptorpb.FileDescriptorProto {
+					if sameMode {
+						return p
+					}
+					c := proto.Clone(p).(*descriptorpb.FileDescriptorProto)
+					c.SourceCodeInfo = nil
+					return c
+				}
+				b1 := detMarshal(stripSI(orig[f.Path()]))
+				b2 := detMarshal(stripSI(protoutil.ProtoFromFileDescriptor(f)))
+				if string(b1) == string(b2) {
+					continue
+				}
+				d1x, e1 := redecode(b1, types)
+				d2x, e2 := redecode(b2, types)
+				if e1 != nil || e2 != nil || !proto.Equal(d1x, d2x) {
+					diff = append(diff, map[string]any{"file": f.Path(), "first": vhlib.Hx(b1), "second": vhlib.Hx(b2)})
+				}
+			}
+			v["diff"] = diff
+		}
+		d2.put(v)
+		out["mixed"] = v
 	}
 
 	if vhlib.Bool(in, "corr") {
